@@ -49,6 +49,7 @@ RULE = ("netsim sessions (handshake / established mixed traffic / wrap-crossing 
         "pending re-send and application messages left with or after its DISCONNECT)")
 ASSUMPTIONS = ["AES-GCM, ECDH/HKDF and ECDSA of the `cryptography` package are trusted (symbolic in the model)",
                "clock values are multiples of 1/1024 s (exact binary fractions), below 2^32 s"]
+USES_GENERATED_HDR = True
 TRUSTED = ["harness/connsim.py + netsim.py: translation between real datagram bytes and the model's symbolic datagrams "
            "(the harness decrypts every emitted datagram itself with AESGCM)"]
 
